@@ -207,12 +207,13 @@ FK_MESH = ["common/common_test.go.tmpl", "agent/cmesh_test.go", "agent/forwardke
 
 
 def fwd_cfg(dev=()):
-    return cfg(dev=dev, emit=False, cfgs=("c0",), invs="FwdOK", props=None, init="FwdInit", nxt="FwdNext", view=False)
+    return cfg(dev=dev, emit=False, cfgs=("c0",), invs="FwdOK", props=None, init="FwdInit" if dev else "FwdSeqInit",
+               nxt="FwdNext", view=False)
 
 
 def c20_model(ctx):
     jobs = {"vecs": dict(module="ExitPolicy", cfg="Fwd.cfg", files={"Fwd.cfg": fwd_cfg()}, workers=1,
-                         tags=("VEC", "FCFG", "FSUM"), name="fwd")}
+                         tags=("VEC", "FCFG", "FSUM", "FEND", "FSEQ", "FQSUM"), name="fwd")}
     for d in C20_DEVS:
         jobs[d] = dict(module="ExitPolicy", cfg="Fwd-%s.cfg" % d, files={"Fwd-%s.cfg" % d: fwd_cfg([d])}, workers=1,
                        tags=("FSUM",), expect_violation=True, name="fwd-" + d, dump_trace=False)
@@ -223,9 +224,6 @@ def c20_model(ctx):
         jobs[d] = dict(module="ExitPolicy", cfg="FwdOpen-%s.cfg" % d, workers=1, name="fwd-open-" + d, expect_violation=True,
                        dump_trace=False, files={"FwdOpen-%s.cfg" % d: cfg(dev=[d], emit=False, cfgs=("c0",), invs="FwdConnOK",
                                                                         props=None, nxt="FwdOpenNext", view=False)})
-    jobs["seqs"] = dict(module="ExitPolicy", cfg="FwdSeq.cfg", workers=1, name="fwd-seqs", tags=("FEND", "FSEQ", "FQSUM"),
-                        files={"FwdSeq.cfg": cfg(emit=False, cfgs=("c0",), invs=None, props=None, init="FwdSeqInit",
-                                                 nxt="FwdNext", view=False)})
     res = par_tlc(ctx, jobs)
     r = res["vecs"]
     if r.violated:
@@ -242,9 +240,9 @@ def c20_model(ctx):
         caught[d] = res[d].violated
     if res["open"].violated:
         raise vf.Infra("ideal forward-open model violates %s (specification error)" % res["open"].violated)
-    fend = [o for t, o in res["seqs"].prints if t == "FEND"]
-    seqs = [o for t, o in res["seqs"].prints if t == "FSEQ"]
-    qsum = [o for t, o in res["seqs"].prints if t == "FQSUM"]
+    fend = [o for t, o in r.prints if t == "FEND"]
+    seqs = [o for t, o in r.prints if t == "FSEQ"]
+    qsum = [o for t, o in r.prints if t == "FQSUM"]
     if not fend or not qsum or qsum[0]["seqs"] != len(seqs):
         raise vf.Infra("forward-open model: incomplete FSEQ output (%d sequences)" % len(seqs))
     openm = {"endpoints": fend[0], "seqs": seqs, "states": res["open"].distinct, "transitions": res["open"].generated}
